@@ -23,6 +23,7 @@ plan('C18',
          Job('c18_inicsv', 'csv_tiny', 'plain', quick=300, thorough=16000, shards=(1, 2)),
      ],
      assumptions=COMMON_ASSUME + [
+         'a quarter of the tables are written row-wise as one array Var per row, the same row object sometimes twice in a row: every row must arrive and the caller\'s array must be unchanged',
          'INI keys are ASCII identifiers, unique per section; values have no leading/trailing blank and no CR/LF (they may hold = # ; [ ] / \\ quotes, '
          'tabs and UTF-8); section names are identifiers, optionally with one inner . - or space; a value set to the empty string counts as returned '
          'when the fresh IniFile yields the empty string',
